@@ -83,6 +83,84 @@ fn symbol_sweep(n: u64) -> (u64, Option<(usize, String, String)>) {
     (per * threads, f)
 }
 
+/// `n` random amounts, each looked up as a scale in every type with a
+/// reference unit.
+fn scale_sweep(n: u64) -> (u64, Option<(usize, String, String)>) {
+    use std::sync::atomic::{AtomicBool, Ordering};
+    use std::sync::Mutex;
+    let c = ctx();
+    let tys: Vec<usize> = all_types().into_iter().filter(|&ty| c.ty(ty).r.is_some()).collect();
+    let scales: Vec<Vec<AmountT>> = tys
+        .iter()
+        .map(|&ty| {
+            let t = c.ty(ty);
+            let rv = t.r.as_ref().unwrap();
+            (0..t.n_units).map(|i| (rv.scale)(i)).collect()
+        })
+        .collect();
+    let seed: u64 = std::env::var("VERIF_SEED").ok().and_then(|s| s.parse().ok()).unwrap_or(1);
+    let threads = std::thread::available_parallelism().map_or(4, |x| x.get()) as u64;
+    let per = n / threads + 1;
+    let stop = AtomicBool::new(false);
+    let first: Mutex<Option<(usize, String, String)>> = Mutex::new(None);
+    std::thread::scope(|sc| {
+        for th in 0..threads {
+            let (tys, scales, stop, first) = (&tys, &scales, &stop, &first);
+            sc.spawn(move || {
+                let build = crate::hist::mix_str(crate::amt::BACKEND) ^ (cfg!(debug_assertions) as u64);
+                let mut x: u64 = crate::hist::mix(&[seed, th, 0x5ca1e, build]) | 1;
+                for i in 0..per {
+                    if i % 4096 == 0 && stop.load(Ordering::Relaxed) {
+                        return;
+                    }
+                    x ^= x >> 12;
+                    x ^= x << 25;
+                    x ^= x >> 27;
+                    let r = x.wrapping_mul(0x2545_f491_4f6c_dd1d);
+                    let s = random_scale(r);
+                    for (k, &ty) in tys.iter().enumerate() {
+                        #[allow(clippy::float_cmp)]
+                        if scales[k].iter().any(|&d| d == s) {
+                            continue;
+                        }
+                        let rv = c.ty(ty).r.as_ref().unwrap();
+                        let (g1, g2) = ((rv.unit_from_scale)(s), (rv.from_scale)(s));
+                        if g1.is_some() || g2.is_some() {
+                            stop.store(true, Ordering::Relaxed);
+                            let mut f = first.lock().unwrap();
+                            if f.is_none() {
+                                *f = Some((ty, amt::key(s), format!(
+                                    "{}: unit_from_scale({}) = {:?}, from_scale = {:?}; no unit of the type has that scale",
+                                    c.models[ty].row.name, amt::show(s), g1, g2
+                                )));
+                            }
+                            return;
+                        }
+                    }
+                }
+            });
+        }
+    });
+    let f = first.into_inner().unwrap();
+    (per * threads, f)
+}
+
+#[cfg(not(feature = "dec"))]
+fn random_scale(r: u64) -> AmountT {
+    // a positive finite double: random mantissa, binary exponent in -80..80
+    let e = 1023 - 80 + (r >> 52) % 161;
+    f64::from_bits((e << 52) | (r & ((1u64 << 52) - 1)))
+}
+
+#[cfg(feature = "dec")]
+fn random_scale(r: u64) -> AmountT {
+    // 1 to 19 significant digits, 0 to 18 fractional digits
+    let digits = 1 + (r >> 59) as u32 % 19;
+    let frac = ((r >> 54) & 31) as u8 % 19;
+    let c = (r % 10u64.pow(digits.min(19))) as i128 + 1;
+    quantities::Decimal::new_raw(c, frac)
+}
+
 fn all_types() -> Vec<usize> {
     ctx().types_of(&[Kind::Ref, Kind::NoRef, Kind::Single, Kind::Amount])
 }
@@ -353,7 +431,7 @@ impl Property for C09 {
         "C09"
     }
     fn rule(&self) -> String {
-        "enumerated per type (catalogue, AmountT, astronomical, synthetic with ties / reference unit not first / no reference unit / single unit): iteration order of iter() and iter_units() against the order demanded by the statement computed from the independent table (exact scale, reference unit first at scale one, declaration order; name order without reference unit), every constant denotes a distinct variant named after its identifier, one reference unit of scale one, as_qty, lookups by every declared symbol and scale. Random: lookups by mutated symbols (case flips, one-character edits with look-alikes such as Greek mu for the micro sign, added blanks, prefixes, doubled, foreign symbols, random Unicode) and perturbed scales (+-1 ulp, negated, foreign, random) against a linear scan over the required order. Mass lookup: 16 million (quick) / 100 million (thorough) random strings of 3-10 characters per build, each looked up in every type through both entry points and expected to find nothing (a lookup that compares digests of symbols answers a foreign string once in 2^32 / (number of units) tries). Non-trivial: registry checks; lookups expected to miss or to pick a tie winner".into()
+        "enumerated per type (catalogue, AmountT, astronomical, synthetic with ties / reference unit not first / no reference unit / single unit): iteration order of iter() and iter_units() against the order demanded by the statement computed from the independent table (exact scale, reference unit first at scale one, declaration order; name order without reference unit), every constant denotes a distinct variant named after its identifier, one reference unit of scale one, as_qty, lookups by every declared symbol and scale. Random: lookups by mutated symbols (case flips, one-character edits with look-alikes such as Greek mu for the micro sign, added blanks, prefixes, doubled, foreign symbols, random Unicode) and perturbed scales (+-1 ulp, negated, foreign, random) against a linear scan over the required order. Mass lookup: 16 million (quick) / 100 million (thorough) random strings of 3-10 characters per build, each looked up in every type through both entry points and expected to find nothing, and half as many random amounts looked up as scales (a lookup that compares digests of symbols answers a foreign string once in 2^32 / (number of units) tries). Non-trivial: registry checks; lookups expected to miss or to pick a tie winner".into()
     }
     fn tape_len(&self) -> usize {
         16
@@ -398,6 +476,12 @@ impl Property for C09 {
         };
         if let Some(v) = v {
             sink.record(json!({"symbol_sweep": done, "types": all_types().len()}), v);
+        }
+        // the same for lookups by scale ("nothing for unknown scales")
+        let (done, failure) = scale_sweep(n / 2);
+        match failure {
+            Some((ty, key, msg)) => sink.record(json!({"kind": "Scale", "ty": ty, "scale": key}), Verdict::Fail(msg)),
+            None => sink.record(json!({"scale_sweep": done}), pass("scale-sweep", true)),
         }
         false
     }
